@@ -5,6 +5,8 @@
 #include <asl/Http.h>
 #include <asl/SHA1.h>
 #include <asl/Map.h>
+#include <thread>
+#include <atomic>
 
 using namespace asl;
 
@@ -58,6 +60,12 @@ static void op_b64(const vf::Op& o)
 	ByteArray dec = decodeBase64(enc);
 	VF_CHECK(S(dec) == data, "decodeBase64(encodeBase64(x)) != x, len=", data.size(), " got len ", dec.length());
 	{
+		// the result belongs to the caller: changing it must not change what the next call returns
+		dec << (byte)0xa5;
+		ByteArray again = decodeBase64(enc);
+		VF_CHECK(S(again) == data, "decodeBase64(encodeBase64(x)) != x after the caller appended a byte to the result of an earlier identical call, len=", data.size(), " got len ", again.length());
+	}
+	{
 		ExactC c(want);
 		ByteArray dec2 = decodeBase64(c.p);
 		VF_CHECK(S(dec2) == data, "decodeBase64(const char*) != x");
@@ -81,6 +89,11 @@ static void op_b64(const vf::Op& o)
 	VF_CHECK(S(eh2) == hx, "encodeHex(ptr,n)");
 	ByteArray dh = decodeHex(eh);
 	VF_CHECK(S(dh) == data, "decodeHex(encodeHex(x)) != x");
+	{
+		dh << (byte)0xa5;
+		ByteArray again = decodeHex(eh);
+		VF_CHECK(S(again) == data, "decodeHex(encodeHex(x)) != x after the caller appended a byte to the result of an earlier identical call");
+	}
 	std::string up = hx;
 	for (auto& ch : up)
 		ch = (char)toupper(ch);
@@ -163,6 +176,38 @@ static void op_sha1(const vf::Op& o)
 	}
 }
 
+// SHA1::hash is a pure function of its message: also when several threads hash their own messages at the same time
+// sha1mt nthreads rounds | message   (thread k hashes message + k bytes of padding so the block edges differ per thread)
+static void op_sha1mt(const vf::Op& o)
+{
+	int nth = (int)(o.i(0) < 2 ? 2 : o.i(0) > 16 ? 16 : o.i(0));
+	int rounds = (int)(o.i(1) < 1 ? 1 : o.i(1) > 2000 ? 2000 : o.i(1));
+	const std::string& base = o.str(0);
+	std::vector<std::string> msg(nth), want(nth), bad(nth);
+	for (int k = 0; k < nth; k++) {
+		msg[k] = base + std::string((size_t)k * 7, (char)('a' + k));
+		want[k] = ref::Sha1::hash(msg[k]);
+	}
+	std::atomic<int> go{0};
+	std::vector<std::thread> ths;
+	for (int k = 0; k < nth; k++)
+		ths.emplace_back([&, k]() {
+			go++;
+			while (go < nth) {
+			}
+			for (int r = 0; r < rounds && bad[k].empty(); r++) {
+				SHA1::Hash h = r % 2 ? SHA1::hash(BA(msg[k])) : SHA1::hash((const byte*)msg[k].data(), (int)msg[k].size());
+				std::string got((const char*)(const byte*)h, 20);
+				if (got != want[k])
+					bad[k] = vf::str("thread ", k, " round ", r, ": SHA1::hash of its ", msg[k].size(), "-byte message is ", ref::hex(got), ", FIPS 180-4 says ", ref::hex(want[k]));
+			}
+		});
+	for (auto& t : ths)
+		t.join();
+	for (int k = 0; k < nth; k++)
+		VF_CHECK(bad[k].empty(), nth, " threads hashing their own messages concurrently: ", bad[k]);
+}
+
 // hostile Base64 text (NUL-free): terminates, in bounds (ASan), non-negative length
 static void op_b64h(const vf::Op& o)
 {
@@ -182,6 +227,12 @@ static void op_b64h(const vf::Op& o)
 	for (int i = 0; i < b.length(); i++)
 		sum += b[i];
 	(void)sum;
+	// the three overloads agree, and the result belongs to the caller: appending to it does not change the next call's result
+	VF_CHECK(S(a) == S(b) && S(a) == S(d), "decodeBase64 overloads disagree on ", vf::show(t), ": lengths ", a.length(), " ", b.length(), " ", d.length());
+	std::string first = S(a);
+	a << (byte)0xa5 << (byte)0x5a;
+	ByteArray a2 = decodeBase64(c.p);
+	VF_CHECK(S(a2) == first, "decodeBase64(", vf::show(t), ") returned ", a2.length(), " bytes after the caller appended 2 bytes to the result of an earlier identical call (", first.size(), " bytes before)");
 }
 
 static void op_hexh(const vf::Op& o)
@@ -204,6 +255,13 @@ static void op_hexh(const vf::Op& o)
 		for (auto& ch : low)
 			ch = (char)tolower(ch);
 		VF_CHECK(ref::hex(S(a)) == low, "decodeHex(", vf::show(t), ") wrong value");
+	}
+	{
+		// the result belongs to the caller
+		std::string first = S(a);
+		a << (byte)0xa5;
+		ByteArray a2 = decodeHex(String(t.c_str()));
+		VF_CHECK(S(a2) == first, "decodeHex(", vf::show(t), ") changed after the caller appended a byte to the result of an earlier identical call");
 	}
 }
 
@@ -240,6 +298,8 @@ void vf_run_case(const std::string& part, const vf::Case& c)
 			op_url(o);
 		else if (o.name == "sha1")
 			op_sha1(o);
+		else if (o.name == "sha1mt")
+			op_sha1mt(o);
 		else if (o.name == "b64h")
 			op_b64h(o);
 		else if (o.name == "hexh")
@@ -394,6 +454,20 @@ void vf_search(const vf::Args& a)
 				return;
 			vf::stats().nt(vf::fnv(o.s[0]));
 			vf::stats().cls("sha1.big");
+		}
+		// several threads hashing their own messages at once (lengths around the padding edges; 2-8 threads)
+		{
+			static const int L[] = {0, 3, 55, 56, 63, 64, 119, 120, 260, 4096, 65553};
+			int reps = (int)a.n(1, 6);
+			for (int r = 0; r < reps; r++)
+				for (int len : L) {
+					vf::Op o("sha1mt", {2 + (long long)rng.below(7), len > 4000 ? 40 : 300});
+					o.s.push_back(rng.bytes(len));
+					if (!run1("sha1mt", o))
+						return;
+					vf::stats().nt(vf::fnv(o.s[0]) ^ 0x5a);
+					vf::stats().cls("sha1.concurrent_hashing_cases");
+				}
 		}
 		auto g = gen::map(gen::container<std::vector<int>>(vf::irange<int>(0, 255)), [](const std::vector<int>& v) {
 			vf::Op o("sha1");
